@@ -1,4 +1,5 @@
 import BV.Drive.PrefixArith
+import BV.Drive.Ledger
 import BV.Drive.Concat
 import BV.Drive.Pool
 import BV.Drive.Huffman
@@ -23,6 +24,7 @@ def dispatch (line : String) : String :=
   | "hasher" :: rest => BV.Drive.Hasher.handle rest
   | "recoder" :: rest => BV.Drive.Recoder.handle rest
   | "dict" :: rest => BV.Drive.Dict.handle rest
+  | "ledger" :: rest => BV.Drive.Ledger.handle rest
   | _ => "bad-engine"
 
 partial def loop (h : IO.FS.Stream) (out : IO.FS.Stream) : IO Unit := do
